@@ -5,7 +5,7 @@ package internal
 // C04 — the chunked reader alone, three-way: Lean model (`decodeChunked`) vs the fork's
 // NewChunkedReader vs Go's reference reader (net/http/httputil.NewChunkedReader, which is
 // net/http/internal's), on generated chunked streams, for read-buffer sizes {16,64,4096} and
-// several caller read sizes.  Unlike the whole-response lane this one sees the reader's own
+// several caller read sizes; the error KIND (eof | chunk | toolong) is part of the answer.  Unlike the whole-response lane this one sees the reader's own
 // error/EOF verdict (no trailer reader behind it).
 
 import (
@@ -66,13 +66,29 @@ func c04ChunkRun(mk func(io.Reader) io.Reader, stream []byte, B, seg, readSize i
 			rest, _ := io.ReadAll(br)
 			out = "eof body=" + verifh.Hex(string(body)) + " rest=" + verifh.Hex(string(rest))
 		} else {
-			out = "err body=" + verifh.Hex(string(body))
+			out = "err:" + c04ChunkErrClass(err) + " body=" + verifh.Hex(string(body))
 		}
 	})
 	if p {
 		return "panic " + txt
 	}
 	return out
+}
+
+// c04ChunkErrClass maps a reader error to the canonical class (texts are those of
+// net/http/internal of go1.23.5, which the fork copies).
+func c04ChunkErrClass(err error) string {
+	msg := err.Error()
+	switch {
+	case err == io.ErrUnexpectedEOF:
+		return "eof"
+	case msg == "header line too long":
+		return "toolong"
+	case msg == "malformed chunked encoding", msg == "empty hex number for chunk length", msg == "invalid byte in chunk length",
+		msg == "http chunk length too large", msg == "chunked encoding contains too much non-data":
+		return "chunk"
+	}
+	return "other(" + msg + ")"
 }
 
 func c04ChunkClassOf(body []byte, B int) string {
@@ -246,35 +262,12 @@ func TestVerif_C04_chunk(t *testing.T) {
 		if len(h) > 400 {
 			h = h[:400] + "…"
 		}
-		s.Case("c04chunk 4096 "+verifh.Hex(probes[cls]), pf, pf == pr, cls, true, h)
+		s.Case("c04chunkE 4096 "+verifh.Hex(probes[cls]), pf, pf == pr, cls, true, h)
 		if present[cls] {
 			s.Count("defect-present:" + cls)
 		}
 	}
-	for c := 0; c < n; c++ {
-		stream, tags := c04GenChunked(r)
-		if r.Intn(6) == 0 && len(stream) > 0 {
-			stream = stream[:r.Intn(len(stream)+1)]
-			tags = append(tags, "cut")
-		}
-		if r.Intn(5) == 0 && len(stream) > 0 {
-			b := []byte(stream)
-			pos := r.Intn(len(b))
-			switch r.Intn(3) {
-			case 0:
-				b[pos] = interesting[r.Intn(len(interesting))]
-			case 1:
-				b = append(b[:pos], b[pos+1:]...)
-			case 2:
-				b = append(b[:pos], append([]byte{interesting[r.Intn(len(interesting))]}, b[pos:]...)...)
-			}
-			stream = string(b)
-			tags = append(tags, "mutated")
-		}
-		for _, tg := range tags {
-			s.Count("gen:" + tg)
-			reached["gen:"+tg]++
-		}
+	runStream := func(stream string) {
 		sb := []byte(stream)
 		for _, B := range []int{16, 64, 4096} {
 			base := c04ChunkRun(NewChunkedReader, sb, B, 0, 4096)
@@ -304,6 +297,9 @@ func TestVerif_C04_chunk(t *testing.T) {
 			kind := strings.SplitN(base, " ", 2)[0]
 			s.Count(kind)
 			reached[kind]++
+			if strings.HasPrefix(kind, "err:") {
+				reached["err"]++
+			}
 			human := "B=" + strconv.Itoa(B) + " " + strconv.QuoteToASCII(stream)
 			if len(human) > 300 {
 				human = human[:300] + "…"
@@ -318,13 +314,78 @@ func TestVerif_C04_chunk(t *testing.T) {
 				}
 				human += " BUT " + note
 			}
-			s.Case("c04chunk "+strconv.Itoa(B)+" "+verifh.Hex(stream), base, agree, class, !strings.Contains(base, "body=_"), human)
+			s.Case("c04chunkE "+strconv.Itoa(B)+" "+verifh.Hex(stream), base, agree, class, !strings.Contains(base, "body=_"), human)
 		}
+		}
+	// the single-fault matrix first (deterministic): every chunk-size line, last-chunk line,
+	// byte sequence after chunk data and extension length of the tables on an otherwise clean body
+	for _, st := range c04ChunkSingleFault() {
+		s.Count("single-fault")
+		reached["single-fault"]++
+		runStream(st)
+	}
+	for c := 0; c < n; c++ {
+		stream, tags := c04GenChunked(r)
+		if r.Intn(6) == 0 && len(stream) > 0 {
+			stream = stream[:r.Intn(len(stream)+1)]
+			tags = append(tags, "cut")
+		}
+		if r.Intn(5) == 0 && len(stream) > 0 {
+			b := []byte(stream)
+			pos := r.Intn(len(b))
+			switch r.Intn(3) {
+			case 0:
+				b[pos] = interesting[r.Intn(len(interesting))]
+			case 1:
+				b = append(b[:pos], b[pos+1:]...)
+			case 2:
+				b = append(b[:pos], append([]byte{interesting[r.Intn(len(interesting))]}, b[pos:]...)...)
+			}
+			stream = string(b)
+			tags = append(tags, "mutated")
+		}
+		for _, tg := range tags {
+			s.Count("gen:" + tg)
+			reached["gen:"+tg]++
+		}
+		runStream(stream)
 	}
 	s.Finish()
-	for _, need := range []string{"eof", "err", "gen:ext", "gen:ext-long", "gen:size-empty", "gen:size-bad", "gen:hex16", "gen:bad-crlf", "gen:cut", "gen:mutated", "gen:excess-long-ext", "gen:excess-many"} {
+	for _, need := range []string{"single-fault", "eof", "err", "err:eof", "err:chunk", "err:toolong", "gen:ext", "gen:ext-long", "gen:size-empty", "gen:size-bad", "gen:hex16", "gen:bad-crlf", "gen:cut", "gen:mutated", "gen:excess-long-ext", "gen:excess-many"} {
 		if reached[need] == 0 {
 			t.Errorf("C04/chunk never reached %q", need)
 		}
 	}
+}
+
+// c04ChunkSingleFault: one fault per stream, everything else clean.
+func c04ChunkSingleFault() []string {
+	var out []string
+	sizes := []string{"5", "05", "0005", "5;x", "5;x=y", "5 ;x", "5\t;x", "5; x", "5 ", "5\t", "5 \t ", " 5", "\t5", "5;", "5;;", "+5", "-5", "0x5", "5x", "5 5", "", " ", ";x", " ;x", "\t;x", "g",
+		"0000000000000005", "00000000000000005", "000000000000000000005", "ffffffffffffffff", "7fffffffffffffff", "8000000000000000", "10000000000000000", "7ffff9ffffffffff",
+		"5\r", "5\r\r", "5;x\r", "５", "5;\"a;b\"", "A", "a", "0A", "5\x00", "5;\x00"}
+	for _, sz := range sizes {
+		for _, eol := range []string{"\r\n", "\n"} {
+			out = append(out, sz+eol+"hello\r\n0\r\n\r\nREST", "3\r\nabc\r\n"+sz+eol+"hello\r\n0\r\n\r\nREST")
+		}
+	}
+	for _, n := range []int{8, 12, 13, 14, 15, 56, 60, 61, 62, 63, 4080, 4088, 4089, 4090, 4091, 4092, 4093, 4094, 4095, 5000} {
+		out = append(out, "5;"+strings.Repeat("e", n)+"\r\nhello\r\n0\r\n\r\nREST", "5;"+strings.Repeat("e", n)+"\nhello\r\n0\r\n\r\nREST")
+	}
+	for _, last := range []string{"0", "00", "0000000000000000", "00000000000000000", "0;x", "0 ;x", "0 ", "0\t", "", " ", ";x", "0\r", "-0", "+0", "0x0", "O"} {
+		for _, eol := range []string{"\r\n", "\n", ""} {
+			out = append(out, "5\r\nhello\r\n"+last+eol+"\r\nREST", last+eol)
+		}
+	}
+	for _, after := range []string{"\r\n", "\n", "", "\r", "\rX", "XX", "\r\r\n", "\n\r", " \r\n", "\r\n\r\n", "X\r\n"} {
+		out = append(out, "5\r\nhello"+after+"0\r\n\r\nREST", "5\r\nhello"+after)
+	}
+	for _, lie := range []string{"4", "6", "7", "0", "ffffffff"} {
+		out = append(out, lie+"\r\nhello\r\n0\r\n\r\nREST")
+	}
+	clean := "5;e\r\nhello\r\n00a\r\n0123456789\r\n0\r\n\r\n"
+	for k := 0; k <= len(clean); k++ {
+		out = append(out, clean[:k])
+	}
+	return out
 }
